@@ -108,7 +108,19 @@ def check_case(ctx, case):
         y = x * 0.5 + np.roll(x, 3)
         p = pe.Obs([y], [name], idl=[il])
         nb = case['nboot']
-        b1 = o.export_bootstrap(nb)
+        # observables of the same chain name but another length, exported with the same number of samples in
+        # the same process, before and after: the name-seeded table depends on (name, samples, length)
+        try:
+            for other_n in (max(6, n - 3), n + 4):
+                pe.Obs([np.arange(other_n, dtype=float) ** 2 % 7], [name]).export_bootstrap(nb)
+        except Exception as e:
+            probs.append(('violation', 'boot-export-exception', repr(e)[:200]))
+            return probs
+        try:
+            b1 = o.export_bootstrap(nb)
+        except Exception as e:
+            probs.append(('violation', 'boot-export-exception', 'default-seeded export after another length on the same chain name: ' + repr(e)[:200]))
+            return probs
         b2 = o.export_bootstrap(nb)
         bp = p.export_bootstrap(nb)
         bc = (p - 2 * o).export_bootstrap(nb)
